@@ -37,7 +37,18 @@ def run_decode(ctx, cases, judge, annot=False):
         try:
             try:
                 S.realize(ty, reg)
+            except Exception as e:
+                ctx.bump("build_error")
+                ctx.violation({"ty": ty, "entry": entry}, {"build_error": repr(e)[:300]}, "schema builds", "schema does not build", lambda f: False)
+                continue
+            try:
                 data = S.norm_v(data, reg)
+            except Exception:
+                # the corrupted input is not a Python value at all (e.g. a list inside a frozenset): not an input
+                ctx.bump("input skipped: not realisable as a Python value")
+                continue
+            try:
+                pass
             except Exception as e:
                 ctx.bump("build_error")
                 ctx.violation({"ty": ty, "entry": entry}, {"build_error": repr(e)[:300]}, "schema builds", "schema does not build", lambda f: False)
